@@ -145,7 +145,20 @@ func ruleCover(c *Ctx) {
 				continue
 			}
 			ok := false
+			escaped := false // an earlier statement of the clause can leave it (break/return/continue/goto)
 			for _, st := range cc.Body {
+				if escaped {
+					break
+				}
+				ast.Inspect(st, func(m ast.Node) bool {
+					switch m.(type) {
+					case *ast.BranchStmt, *ast.ReturnStmt:
+						escaped = true
+					case *ast.FuncLit:
+						return false
+					}
+					return true
+				})
 				as, isAs := st.(*ast.AssignStmt)
 				if !isAs || as.Tok != token.ASSIGN || len(as.Lhs) != 1 || len(as.Rhs) != 1 {
 					continue
@@ -287,6 +300,8 @@ func ruleCover(c *Ctx) {
 		n++
 	}
 
+	// ---------- LISTS, ORDER
+	n += coverLists(c, info)
 	// ---------- COUNTER, POS
 	n += coverTrack(c, info)
 	// ---------- LINES
@@ -505,6 +520,106 @@ func litField(cl *ast.CompositeLit, name string) ast.Expr {
 		}
 	}
 	return nil
+}
+
+// coverLists: the list-level annotators keep every element (same length, same order), and the
+// tracked-block list is only ever appended to (by trackStatement), measured and ranged over.
+func coverLists(c *Ctx, info *types.Info) int {
+	n := 0
+	for _, name := range []string{"annotateStmtsList", "annotateActions", "annotateFunctions"} {
+		fd := c.funcDecl("internal/cover", "Cover."+name)
+		if fd == nil {
+			c.undecided("anchor:"+name, token.NoPos, "Cover.%s not found", name)
+			continue
+		}
+		n++
+		param := fd.Type.Params.List[0].Names[0].Name
+		var loop *ast.RangeStmt
+		for _, st := range fd.Body.List {
+			if r, ok := st.(*ast.RangeStmt); ok && isIdent(r.X, param) {
+				loop = r
+			}
+		}
+		good := loop != nil
+		appends := 0
+		if loop != nil {
+			for _, st := range loop.Body.List {
+				switch s := st.(type) {
+				case *ast.AssignStmt:
+					if len(s.Rhs) == 1 {
+						if call, ok := s.Rhs[0].(*ast.CallExpr); ok && isIdent(call.Fun, "append") {
+							if len(call.Args) == 2 && !call.Ellipsis.IsValid() {
+								appends++
+							} else {
+								good = false
+							}
+						}
+					}
+				default:
+					// any control flow in the loop body can drop or duplicate an element
+					good = false
+				}
+			}
+		}
+		c.check(good && appends == 1, "lists:"+name, fd.Pos(),
+			"every element is kept: the loop body is straight-line code with exactly one append per element",
+			name+" does not append exactly one result per input element on every iteration (control flow in the loop body, or no/several appends): a BEGIN/END block, an action or a function can disappear from (or be duplicated in) the annotated program, which changes what runs")
+	}
+	// who touches trackedBlocks
+	cp := c.pkg("internal/cover")
+	var badUse string
+	var badPos token.Pos
+	uses := 0
+	for _, fd := range c.allFuncDecls("internal/cover") {
+		if fd.Body == nil || fd.Recv == nil || len(fd.Recv.List[0].Names) == 0 {
+			continue
+		}
+		recv := fd.Recv.List[0].Names[0].Name
+		path := []ast.Node{}
+		ast.Inspect(fd.Body, func(nd ast.Node) bool {
+			if nd == nil {
+				path = path[:len(path)-1]
+				return true
+			}
+			path = append(path, nd)
+			se, ok := nd.(*ast.SelectorExpr)
+			if !ok || !isIdent(se.X, recv) || se.Sel.Name != "trackedBlocks" {
+				return true
+			}
+			uses++
+			parent := path[len(path)-2]
+			okUse := false
+			switch p := parent.(type) {
+			case *ast.RangeStmt:
+				okUse = p.X == ast.Expr(se)
+			case *ast.CallExpr:
+				if isIdent(p.Fun, "len") {
+					okUse = true
+				}
+				if isIdent(p.Fun, "append") && fd.Name.Name == "trackStatement" && len(p.Args) == 2 && p.Args[0] == ast.Expr(se) {
+					okUse = true
+				}
+			case *ast.AssignStmt:
+				// cover.trackedBlocks = append(cover.trackedBlocks, ...) in trackStatement
+				if fd.Name.Name == "trackStatement" && len(p.Lhs) == 1 && p.Lhs[0] == ast.Expr(se) {
+					if call, ok := p.Rhs[0].(*ast.CallExpr); ok && isIdent(call.Fun, "append") {
+						okUse = true
+					}
+				}
+			}
+			if !okUse && badUse == "" {
+				badUse = declName(fd) + ": " + types.ExprString(se)
+				badPos = se.Pos()
+			}
+			return true
+		})
+	}
+	_ = cp
+	n++
+	c.check(badUse == "" && uses >= 4, "counter:order", badPos,
+		"the tracked-block list is only appended to by trackStatement, measured and ranged over: block i keeps counter element i+1",
+		"the tracked-block list is used other than by append in trackStatement, len and range ("+badUse+"): reordering, indexing or passing it on (for example to sort) breaks the pairing of block i with counter element i+1, so counts are attributed to the wrong blocks")
+	return n
 }
 
 func coverTrack(c *Ctx, info *types.Info) int {
